@@ -1,3 +1,164 @@
 package main
 
-func dispatch7(mode string, args []string) bool { return false }
+import (
+	"bufio"
+	"encoding/json"
+	"fmt"
+	"math/rand"
+	"os"
+
+	"verif/harness/vapp"
+)
+
+func dispatch7(mode string, args []string) bool {
+	switch mode {
+	case "hostile":
+		hostileMode(args)
+	default:
+		return dispatch8(mode, args)
+	}
+	return true
+}
+
+type HostileEvent struct {
+	T            int    `json:"t"`
+	H            int64  `json:"h"`
+	Kind         string `json:"kind"`
+	Field        string `json:"field"`
+	Class        string `json:"class"`
+	Check        int64  `json:"check"`        // CheckTx code, -1 process exited, -2 application closed itself
+	Deliver      int64  `json:"deliver"`      // DeliverTx code when delivered in a block, same convention; -9 not reached
+	ProbeCheck   int64  `json:"probeCheck"`   // CheckTx of a valid SEND afterwards
+	ProbeDeliver int64  `json:"probeDeliver"` // its DeliverTx in the next block
+	Exit         int    `json:"exit"`
+	Len          int    `json:"len"`
+}
+
+func code(r *vapp.Reply, p *vapp.Proc) int64 {
+	if !r.Alive {
+		if p.Closed {
+			return -2
+		}
+		return -1
+	}
+	return 0
+}
+
+// hostileMode (C18): the field x class product of correctly signed hostile transactions of
+// every kind, plus sampled arbitrary byte strings; each case on a fresh replica, followed
+// by a probe.
+func hostileMode(args []string) {
+	c, _ := flags("hostile", args)
+	given := loadScenarios(c)
+	rep := newReport("hostile")
+	type res struct {
+		evs []HostileEvent
+		err error
+		sc  *vapp.Scenario
+		tr  *vapp.Transcript
+	}
+	results := make([]res, c.n)
+	parallel(c.n, c.workers, func(i int) {
+		var sc *vapp.Scenario
+		if given != nil {
+			sc = given[i]
+		} else {
+			sc = makeScenario(c, i)
+		}
+		r := &results[i]
+		r.sc = sc
+		ref, err := vapp.Materialise(sc, vapp.RunOpts{Identity: "v1"})
+		if err != nil {
+			r.err = err
+			return
+		}
+		r.tr = ref
+		g := vapp.BuildGenesis(sc.Genesis)
+		rng := rand.New(rand.NewSource(c.seed*41 + int64(i)))
+		for _, pk := range pickTxs(ref, rng, c.maxTx) {
+			rec := ref.Blocks[pk.bi].Txs[pk.ri]
+			cases := g.HostileCases(rec.B)
+			cases = append(cases, vapp.ByteCases(rec.B.Bytes, rng, 12)...)
+			for ci, hc := range cases {
+				ev := HostileEvent{T: i + 1, H: int64(pk.bi + 1), Kind: hc.Kind, Field: hc.Field, Class: hc.Class, Deliver: -9, ProbeCheck: -9, ProbeDeliver: -9, Len: len(hc.Bytes)}
+				p, dir, err := prefixProc(sc, ref, pk.bi)
+				if err != nil {
+					r.err = err
+					return
+				}
+				func() {
+					defer func() { p.Stop(); os.RemoveAll(dir) }()
+					cr := p.Call(&vapp.Cmd{Op: "check", Tx: hc.Bytes})
+					if !cr.Alive {
+						ev.Check, ev.Exit = code(cr, p), p.Exit
+						return
+					}
+					ev.Check = int64(cr.Tx.Code)
+					br := p.Call(&vapp.Cmd{Op: "run_block", Block: blockWith(ref, pk.bi, rec.Index, hc.Bytes)})
+					if !br.Alive {
+						ev.Deliver, ev.Exit = code(br, p), p.Exit
+						return
+					}
+					ev.Deliver = int64(br.Txs[rec.Index].Code)
+					// probe: a fixed valid transfer must still be accepted and executed
+					probe := g.Build(vapp.TxReq{Kind: "SEND", A: vapp.A{"from": "a3", "to": "a1", "amt": 1}, Memo: fmt.Sprintf("probe-%d-%d", i, ci)})
+					pc := p.Call(&vapp.Cmd{Op: "check", Tx: probe.Bytes})
+					if !pc.Alive {
+						ev.ProbeCheck, ev.Exit = code(pc, p), p.Exit
+						return
+					}
+					ev.ProbeCheck = int64(pc.Tx.Code)
+					nb := *blockWith(ref, pk.bi, rec.Index, nil)
+					nb.Height++
+					nb.Txs = [][]byte{probe.Bytes}
+					nb.Time = nb.Time.Add(10)
+					nb.Votes = ref.Concrete[pk.bi].Votes
+					if pk.bi+1 < len(ref.Concrete) {
+						nb.Votes = ref.Concrete[pk.bi+1].Votes
+					}
+					pb := p.Call(&vapp.Cmd{Op: "run_block", Block: &nb})
+					if !pb.Alive {
+						ev.ProbeDeliver, ev.Exit = code(pb, p), p.Exit
+						return
+					}
+					ev.ProbeDeliver = int64(pb.Txs[0].Code)
+				}()
+				r.evs = append(r.evs, ev)
+			}
+		}
+	})
+	f, _ := os.Create(c.out)
+	w := bufio.NewWriter(f)
+	enc := json.NewEncoder(w)
+	kinds := map[string]int{}
+	classes := map[string]int{}
+	var scs []*vapp.Scenario
+	for _, r := range results {
+		if r.err != nil {
+			fmt.Fprintln(os.Stderr, "run error:", r.err)
+			os.Exit(2)
+		}
+		rep.count(r.tr)
+		scs = append(scs, r.sc)
+		for _, e := range r.evs {
+			_ = enc.Encode(e)
+			rep.Events++
+			kinds[e.Kind]++
+			classes[e.Class]++
+			if e.Check < 0 || e.Deliver == -1 || e.Deliver == -2 {
+				rep.Dead++
+			}
+			if len(rep.Samples) < 4 && rep.Events%97 == 1 {
+				rep.Samples = append(rep.Samples, e)
+			}
+		}
+	}
+	w.Flush()
+	f.Close()
+	sf, _ := os.Create(c.out + ".scenarios.json")
+	_ = json.NewEncoder(sf).Encode(scs)
+	sf.Close()
+	rep.Extra["cases_per_kind"] = kinds
+	rep.Extra["cases_per_class"] = classes
+	emit(rep)
+}
